@@ -457,8 +457,18 @@ class Parser:
                 return ("while", c, self.block())
             self.next()
             if self.at("!") and self.peek(1)[0] == "op" and self.peek(1)[1] in ("[", "{") and name != "matches":
-                # a macro with bracket or brace delimiters (vec![..]): skipped as a whole
+                # a macro with bracket or brace delimiters: vec![elem; n] / vec![a, b] is read as the array expression it wraps,
+                # anything else is skipped as a whole
                 self.next()
+                if name == "vec" and self.at("["):
+                    save = self.i
+                    try:
+                        inner = self.expr()
+                        if inner[0] in ("array", "arrayrep"):
+                            return ("macro", "vec", [inner])
+                    except Untranslatable:
+                        pass
+                    self.i = save
                 opener = self.next()[1]
                 closer = {"[": "]", "{": "}"}[opener]
                 depth = 1
